@@ -70,6 +70,31 @@ CHECKS = {
    text="In every state of the reduced-bound C02/C04/C07/C08/C09 explorations the image length must equal the formula its mode and configuration dictate (HLL 8+4c / 12+4c / 40+{k/2,3k/4+1,k}+4*aux with c and aux from the hook dump; theta <= 15/16*2k retained, image = 8*(preLongs+n), v4 <= v3; Bloom and Count-Min fixed by configuration; Frequent Items num_active <= maximum_map_capacity). Long runs: 4 hashed streams (distinct, 16 repeated, ascending theta hash, ascending HLL value) of 2^18 (2^22) items through the public update, HLL lg_k {4,8,12,(21)} x 3 types and theta lg_k {5,8,12} (incl. trim <= k) measured at every power-of-two prefix; CPC lg_k 4..12(14) x 4 seeds at every 1/8-octave prefix: exceedances of max_serialized_bytes are counted and must stay <= 0.1%.",
    note="The CPC clause is probabilistic: decided only as a complete count over the stated hashed-stream grid. t-digest size is C15.",
    design="3/C18"),
+ "C01": dict(
+   technique="ordering/nesting/exactness observer on the family explorers + finite-domain enumeration of the estimators' argument spaces + exhaustive one-step expectation (HIP martingale identity) over ALL next coupons",
+   text="(1) lb3<=lb2<=lb1<=est<=ub1<=ub2<=ub3, finite, non-negative, exact-mode theta exact, coverage not collapsing after screened updates, non-empty union estimate > 0: in every state of the reduced-bound C02..C06 explorations. (2) Whole argument spaces: HLL coupon estimator for every length up to the set capacity; HLL relative-error table lg_k 4..=21 x HIP/non-HIP x lb/ub x 3 std devs (sign, monotone in std devs, HIP < non-HIP, smooth ~1/sqrt(2) per lg_k); HLL composite estimator for ALL multisets of 16 registers (lg_k=4) over a value set; CPC ICON lg_k 4..=26 x every C (small k) / dense grid: est >= C, monotone in C, bounds nested, agreement with the estimator's DEFINITION (bisection of E[C|N]=C) within a per-lg_k tolerance; ICON/HIP confidence tables; theta binomial bounds on a (num_retained x theta) grid. (3) HIP unbiasedness of HLL and CPC as the identity sum_over_all_next_coupons p*(estimate'-estimate) == 1, evaluated with every possible next coupon (k x 63 values / k x 64 columns) in states along the default runs.",
+   note="NOT decided (different family - needs sampling): bias of the composite/ICON/coupon/theta estimators over random item sets, consistency of the spread with the advertised RSE, and the 68/95/99.7% coverage rates. The martingale identity gives exact unbiasedness of the HIP estimators for every cardinality reachable from the checked states.",
+   design="3/C01, 4"),
+ "C07": dict(
+   technique="stateless exhaustive DFS of all op sequences (no state merging: purge depends on table layout) + deviation-bounded enumeration + exhaustive merge trees on the real FrequentItemsSketch against an exact frequency map",
+   text="Map size 8: ALL sequences of <= 8 unit updates over 8 items (two alphabets whose items are brute-forced to share home slots and wrap the table end) and <= 5 ops over a 13-op weighted alphabet, from the empty state and 9 non-initial states; sizes 8..1024 (2048 thorough): six default runs with every single (size 8: double) deviation {update, merge(pool[j]), reset, serialize round trip}; all ordered merge trees of 2 and 3 leaves over a pool of 14 sketches and left-deep chains of 4-5. In every state, for every item of the domain plus never-offered items: lb <= truth <= ub, ub-lb <= maximum_error, estimate in {0} U [lb,ub], total_weight exact, maximum_error <= epsilon*total for single-size histories, NoFalsePositives subset / NoFalseNegatives superset of the true heavy hitters, rows sorted, num_active <= capacity; String items on a smaller scope.",
+   note="An independent table-layout model (validated against serialize() key order at every purge/resize) is used only to name edges (purge-to-empty, back-shift across the array end, ...), not as an oracle.",
+   design="3/C07"),
+ "C10": dict(
+   technique="finite-domain enumeration of crafted digests (all small centroid lists x 4 encodings through deserialize) + stateless DFS of all macro-op sequences on the real TDigestMut/TDigest, oracle admissibility-checked against reference formulas",
+   text="Crafted: every centroid list with 1..4 centroids, weights {1,2,3,8}, means from {0,1,2,3}, min/max at or beyond the end means, k {10,100}, 4 encodings, reverse flag (~500k images incl. heavy end centroids the in-process algorithm never produces). In-process: k {10,11,29,30,100,200,500}, all sequences to depth 2-3 (4 thorough) over 48 macro-ops (7 batch shapes x 6 sizes around the buffer capacity, merge(pool), freeze/unfreeze, serialize round trip). On dense q and v grids: rank in [0,1] non-decreasing, 0 below min, 1 above max; quantile in [min,max] non-decreasing, quantile(0)=min, quantile(1)=max; cdf/pmf consistent with rank incl. the empty split-point list; rank(quantile(q)) within the digest's resolution; total_weight / min / max exact; both TDigestMut and TDigest.",
+   note="Each oracle clause is first evaluated against a port of the reference rank/quantile formulas on the same space; clauses the reference itself fails on some digests are suspended there (counts in the evidence notes).",
+   design="3/C10"),
+ "C15": dict(
+   technique="deviation-bounded enumeration over stream shapes x every length across buffer boundaries + exhaustive merge trees on the real t-digest against the sorted exact data",
+   text="k {10,20,29,30,50,100,200,500} x 8 stream shapes (sorted, reversed, sawtooth, constant, heavy duplicates, far clusters, geometric magnitudes, alternating extremes), observed at every length <= 4*capacity+2, every buffer boundary +-1 and every power of two up to 2^16 (2^20), with every single deviation {merge(pool), freeze/unfreeze, serialize round trip, duplicate of min/max} on a position grid; left-deep and balanced merge trees over 16 digests and all binary trees with <= 4 leaves over a pool of 6. At each observation (centroids read from serialize() by the harness's own decoder): centroid count <= 2k+30 and <= the derived capacity, image size bounded by k, weights sum to total_weight == number of finite values, means sorted within [min,max], min/max exact, k2 centroid-size limit, weighted mean sum, |rank(v) - true_rank(v)| within the k-scale bound on the v grid and exact-to-one-sample at the extremes.",
+   note="The rank-error constant is validated by the same admissibility check as C10; on the geometric-magnitudes stream the bound is raised per grid point to 1.05x the reference's own error (recorded in the evidence notes).",
+   design="3/C15"),
+ "C14": dict(
+   technique="fault enumeration: complete mutation operators around seed images of every family/variant, each case in a worker subprocess under an allocation guard and a watchdog",
+   text="~206k (quick) distinct (entry point, byte string) cases over all 16 deserialize entry points (+CpcWrapper::new): per seed image (76 seeds: every family x variant x mode, own serializer and spec encoder) every truncation, extension by 1..8 bytes, every single-bit flip in the first 64 bytes, 5 byte values at every offset, every named field x boundary values (0,1,2,3,max,max-1,max/2,max/2+1,cur+-1, every power of two, float specials), pairs of named-field mutations, every seed unmodified into every foreign entry point, all inputs of length <= 1 (<= 2 thorough) and valid-header short strings. Verdict must be Ok or Err: never a panic, abort, hang (3 s) or a single allocation above max(8 MiB, 64 x input length); every Ok value is then queried, updated, merged with a fresh partner and with a clone, re-serialized and re-deserialized under catch_unwind.",
+   note="Complete for the stated operators and seeds only. Two known findings (configuration-only EMPTY Bloom / Count-Min images allocate the configured table) are listed in known_findings.json.",
+   design="3/C14"),
 }
 NOT_BUILT = "check not built yet in this session (planned in DESIGN.md section 3); not claimed until it exists"
 def main():
